@@ -6,3 +6,8 @@ func VerifC09_FwHistory() { verifFwHistory("C09", true) }
 
 // single Interest carrying a consumer-chosen next hop (NextHopFaceId)
 func VerifC09_NextHopFaceId() { verifFwHistory("C09", true) }
+
+// longer histories as fixed shapes with three faces of symbolic scope; Interest names may be empty (the catch-all
+// prefix) and any name may start with /localhost
+func VerifC09_Script_IID() { verifFwScript("C09", true, []string{"IID"}) }
+func VerifC09_Script_IDI() { verifFwScript("C09", true, []string{"IDI"}) }
